@@ -17,6 +17,39 @@ def load(gt, raw, seconds=30.0):
         return gt.IR.load_protobuf_file(io.BytesIO(raw))
 
 
+def save_via_path(ir, rnd):
+    """save_protobuf(<path>) with a str or pathlib path; returns the bytes."""
+    import os
+    import pathlib
+    import tempfile
+    d = tempfile.mkdtemp(prefix="gtmon-io-")
+    try:
+        p = os.path.join(d, rnd.choice(["x.gtirb", "é x.gtirb"]))
+        ir.save_protobuf(pathlib.Path(p) if rnd.random() < 0.5 else p)
+        with open(p, "rb") as f:
+            return f.read()
+    finally:
+        import shutil
+        shutil.rmtree(d, ignore_errors=True)
+
+
+def load_via_path(gt, raw, rnd):
+    import os
+    import pathlib
+    import shutil
+    import tempfile
+    d = tempfile.mkdtemp(prefix="gtmon-io-")
+    try:
+        p = os.path.join(d, "y.gtirb")
+        with open(p, "wb") as f:
+            f.write(raw)
+        with op_guard(30.0):
+            return gt.IR.load_protobuf(pathlib.Path(p) if rnd.random() < 0.5
+                                       else p)
+    finally:
+        shutil.rmtree(d, ignore_errors=True)
+
+
 def parse_ir_message(gt, raw):
     """Parse bytes after the 8-byte header with the freshly generated
     classes (not with the library's reader)."""
